@@ -4,7 +4,7 @@ import json, os, subprocess
 ROOT = os.path.dirname(os.path.dirname(os.path.abspath(__file__)))
 # property a fix is recorded under (first matching keyword in the commit subject)
 RULES = [
-    ("skip(n)", "C10"), ("time limit", "C10"), ("multinom", "C10"), ("sample(seq", "C10"), ("pow size pre-check", "C10"), ("pow with an exponent", "C10"), ("common type of two instances", "C04"), ("callable-typed value was assignable", "C04"), ("two function types compared equal", "C04"), ("default-value", "C04"), ("calls through", "C04"), ("dynamic (library) overloads", "C05"), ("default value let the default", "C04"), ("optional compared equal", "C04"), ("turbofish", "C12"), ("exponential compile time", "C12"), ("hash-set order", "C12"), ("forward", "C03"), ("grammar: an identifier", "C03"), ("grammar: 'struct'", "C03"), ("user-defined function", "C06"), ("zip of sequences", "C06"), ("set_default", "C06"),
+    ("rectangular_distribution", "C01"), ("sampling a binomial", "C10"), ("skip(n)", "C10"), ("time limit", "C10"), ("multinom", "C10"), ("sample(seq", "C10"), ("pow size pre-check", "C10"), ("pow with an exponent", "C10"), ("common type of two instances", "C04"), ("callable-typed value was assignable", "C04"), ("two function types compared equal", "C04"), ("default-value", "C04"), ("calls through", "C04"), ("dynamic (library) overloads", "C05"), ("default value let the default", "C04"), ("optional compared equal", "C04"), ("turbofish", "C12"), ("exponential compile time", "C12"), ("hash-set order", "C12"), ("forward", "C03"), ("grammar: an identifier", "C03"), ("grammar: 'struct'", "C03"), ("user-defined function", "C06"), ("zip of sequences", "C06"), ("set_default", "C06"),
     ("merge sort", "C19"), ("hash of a set/mapping", "C19"), ("format of i64::MIN", "C14"),
     ("generator", "C16"), ("generators", "C16"),
     ("sequence", "C15"), ("range", "C15"), ("combination", "C15"), ("to_array", "C15"),
@@ -25,7 +25,7 @@ OPEN = [
      "why_not_fixed": "the repair needs the template cells of already created closures to be patched when the forward declaration is fulfilled (templates are immutable Rc's shared with live closures): a redesign of PendingCapture, not a local patch"},
     {"id": "K-C01-02", "property": "C01", "status": "open",
      "sig": r"^panic\|.*\|statrs/(beta|gamma)\.rs:called `Result::unwrap\(\.\.\)$",
-     "what": "cdf / quantile of the continuous distributions hand extreme arguments straight to statrs 0.16, whose special functions (function/beta.rs, function/gamma.rs) unwrap a domain check: e.g. fisher_snedecor_distribution(6.0, 4.0).cdf(1e308) or quantile(students_t_distribution(1.0000000000000002, 1e308), 2.2e-308) panic inside the dependency",
+     "what": "cdf / quantile / pdf of the distributions (continuous ones, and discrete cdf / quantile) hand extreme arguments straight to statrs 0.16, whose special functions (function/beta.rs, function/gamma.rs) unwrap a domain check: e.g. fisher_snedecor_distribution(6.0, 4.0).cdf(1e308) or quantile(students_t_distribution(1.0000000000000002, 1e308), 2.2e-308) panic inside the dependency",
      "example": "let d = fisher_snedecor_distribution(6.0, 4.0);\nlet r = d.cdf(1e308);",
      "why_not_fixed": "the domain of every statrs special function would have to be re-validated in each of the ~40 distribution wrappers (or the dependency upgraded to a release that returns errors): not a minimal patch"},
     {"id": "K-C03-01", "property": "C03", "status": "open",
@@ -33,6 +33,10 @@ OPEN = [
      "what": "same defect as K-C01-01 seen through C03: a function declared between a `forward fn` and its implementation *inside a function body* keeps a lazily resolved reference; when it (or a closure calling it) is returned and called after that body has finished, the call panics instead of using the binding of its defining scope (top-level forward declarations were repaired, see the fixed entries)",
      "example": "fn outer()->()->(int){ forward fn b()->int; fn a()->int{ b() } fn b()->int{ 5 } a }\nlet r = outer()();",
      "why_not_fixed": "see K-C01-01"},
+    {"id": "K-C10-02", "property": "C10", "status": "open",
+     "sig": r"^no_return\|(num:(gamma|chisq)_distribution.*|(quantile|cdf)\(ContinuousDistribution, float\)->float)$",
+     "what": "cdf / quantile of a gamma (or chi-squared) distribution with an astronomically large shape (gamma_distribution(1e19, 1.0).cdf(1e19), chisq_distribution(9223372036854775807).quantile(0.5)) does not return: statrs' incomplete gamma iteration grows with the shape (1e15 already takes seconds) and is consulted against no limit; same root as K-C10-01",
+     "example": "let r0 = gamma_distribution(1.0e19, 1.0).cdf(1.0e19);"},
     {"id": "K-C10-01", "property": "C10", "status": "open",
      "sig": r"^no_return\|(num:(poisson|binomial|hypergeometric|negative_binomial|geometric)_distribution.*|(quantile|cdf|pmf)\(DiscreteDistribution, (float|int)\)->(int|float))$",
      "what": "cdf / quantile of a discrete distribution with an astronomically large parameter (poisson_distribution(1.8e19).quantile(0.5)) does not return: every cdf evaluation runs statrs' incomplete gamma / beta iteration, whose number of steps grows with the parameter and is consulted against no limit",
